@@ -60,6 +60,7 @@ def h_capture(sx):
     user_handler = logging.StreamHandler(io.StringIO())
     states = {}
     order = []
+    toggled = []
 
     def probe(w, name, context, args):
         if name == "before_all":
@@ -72,6 +73,10 @@ def h_capture(sx):
                 logging.getLogger("harness").isEnabledFor(logging.WARNING)
         if name == "before_scenario":
             sid = w._label(args[0])
+            if p.get("switch_off_before_second") and order and sid not in order and not toggled:
+                # user hook turning capture OFF for the rest of the run (e.g. for @no_capture scenarios)
+                toggled.append(sid)
+                context.config.stdout_capture = context.config.stderr_capture = context.config.log_capture = False
             states[sid] = ([h for h in root.handlers], root.level)
             order.append(sid)
         if name in ("before_step", "after_step"):
@@ -80,9 +85,12 @@ def h_capture(sx):
     try:
         w, flags = build_world(sx, {"hooks": True, "fault": bool(p.get("fault")), "prints": True, "hook_probe": probe})
         cfg = w.config
-        cfg.stdout_capture = sx.bool("stdout_capture")
-        cfg.stderr_capture = sx.bool("stderr_capture")
-        cfg.log_capture = sx.bool("log_capture")
+        if p.get("switch_off_before_second"):
+            cfg.stdout_capture = cfg.stderr_capture = cfg.log_capture = True       # on, until the hook turns them off
+        else:
+            cfg.stdout_capture = sx.bool("stdout_capture")
+            cfg.stderr_capture = sx.bool("stderr_capture")
+            cfg.log_capture = sx.bool("log_capture")
         cfg.logging_clear_handlers = bool(p.get("clear_handlers"))
         if p.get("log_filter"):
             # --logging-filter with included AND excluded categories = "everything except the excluded ones"
@@ -113,6 +121,13 @@ def h_capture(sx):
     if w.escaped is not None:
         return {"escaped": repr(w.escaped)}
     so, se, lo = bool(cfg.stdout_capture), bool(cfg.stderr_capture), bool(cfg.log_capture)
+    if toggled:
+        # the switches were on until the hook turned them off before scenario toggled[0]
+        so = se = lo = True
+        off_from = order.index(toggled[0])
+        off_sids = set(order[off_from:])
+    else:
+        off_sids = set()
 
     def det(m):
         return {"capture": {"stdout": so, "stderr": se, "log": lo}, "real_stdout": w.stdout[-600:], "real_stderr": w.stderr[-300:],
@@ -124,6 +139,8 @@ def h_capture(sx):
     real_out = {(k, a, b) for k, a, b in MARK.findall(w.stdout)}
     real_err = {(k, a, b) for k, a, b in MARK.findall(w.stderr)}
     for sid, src in [tuple(c) for c in w.calls]:
+        if sid in off_sids:
+            continue        # capture switched off by a hook: output passes through (not examined here)
         if so:
             sx.check(("OUT", sid, src) not in real_out, "C18.captured-stdout-does-not-leak", detail=lambda m, sid=sid, src=src: dict(det(m), marker=[sid, src]))
         else:
@@ -132,7 +149,7 @@ def h_capture(sx):
             sx.check(("ERR", sid, src) not in real_err, "C18.captured-stderr-does-not-leak", detail=lambda m, sid=sid, src=src: dict(det(m), marker=[sid, src]))
         else:
             sx.check(("ERR", sid, src) in real_err, "C18.uncaptured-stderr-passes-through", detail=lambda m, sid=sid, src=src: dict(det(m), marker=[sid, src]))
-    if so:
+    if so and not off_sids:
         sx.check(not any(k == "HOOKOUT" for k, a, b in real_out), "C18.captured-hook-output-does-not-leak", detail=det)
     # 3. a failing step's report holds exactly its scenario's output up to that step
     for e in w.scenario_elems():
@@ -151,7 +168,7 @@ def h_capture(sx):
                 marks = MARK.findall(st.error_message or "")
                 for kind, on in (("OUT", so), ("ERR", se), ("LOG", lo)):
                     got = [(a, b) for k, a, b in marks if k == kind]
-                    exp = [(e.eid, s) for s in upto] if on else []
+                    exp = [(e.eid, s) for s in upto] if (on and e.eid not in off_sids) else []
                     sx.check(got == exp, "C18.failure-report-has-scenario-output-up-to-step(%s)" % kind,
                              detail=lambda m, e=e, got=got, exp=exp, kind=kind: dict(det(m), sid=e.eid, kind=kind, got=got, expected=exp))
     # 4. root logger handlers / level at scenario end are as before the scenario (user handler kept, no stale capture handler)
@@ -208,13 +225,16 @@ def jobs(tier, seed):
     shapes["volume"] = ([F([S(2), S(1)])], {"out_dom": {"*": [0, 1]}, "undef": False, "log_volume": [0, 600, 1000]})
     shapes["filter"] = ([F([S(2), S(1)])], {"out_dom": {"*": [0, 1]}, "undef": False, "log_volume": [0, 3]})
     shapes["stale-level-cache"] = ([F([S(2), S(1)])], {"out_dom": {"*": [0, 1]}, "undef": False})
+    shapes["switch-off-midrun"] = ([F([S(1), S(2)])], {"out_dom": {"*": [0, 1]}, "undef": False})
     shapes["nested"] = ([F([S(2), S(1)])], {"out_dom": {"*": [0, 1]}, "nested_steps": ["f0.i0.0", "f0.i1.0"], "undef": False})
     for name, (sh, opts) in shapes.items():
         for clear in ((False,) if tier == "quick" else (False, True)):
             js.append(Job("capture.%s.c%d" % (name, clear), "props.c18:h_capture",
                           {"shapes": sh, "opts": opts, "fault": name == "hookfault", "clear_handlers": clear,
-                           "log_filter": "other,-harness.fill" if name == "filter" else None, "stale_level_cache": name == "stale-level-cache"},
-                          reach=REACH if name != "hookfault" else REACH[:3], min_paths=20, cost=100, validate=60))
+                           "log_filter": "other,-harness.fill" if name == "filter" else None, "stale_level_cache": name == "stale-level-cache",
+                           "switch_off_before_second": name == "switch-off-midrun"},
+                          reach=[REACH[0], REACH[3]] if name == "switch-off-midrun" else REACH if name != "hookfault" else REACH[:3],
+                          min_paths=4 if name == "switch-off-midrun" else 20, cost=100, validate=60))
     js.append(Job("captured-kernel", "props.c18:h_captured_kernel", {}, reach=["C18.captured-add-loses-nothing"], min_paths=100, cost=50,
                   validate=50, closure=False))
     return js
